@@ -56,6 +56,7 @@ struct ChildSpec {
     std::string data;                 // what the child writes to its stdout (the pipe)
     size_t write_limit = static_cast<size_t>(-1);   // stops after this many bytes (server closed the connection)
     int exit_code = 0;                // exit status after writing (non-zero: the transfer failed)
+    int kill_signal = 0;              // != 0: the child is killed by this signal after writing (wait status without exit code)
     int chunk_mode = 0;               // 0: one write, 1: fixed chunk, 2: random lengths
     size_t chunk = 0;
     bool tiny_writes = true;          // chunk_mode 2 may use writes of 1..16 bytes
